@@ -993,6 +993,39 @@ def tiff_tiles(rep):
     fns = p13.io_ast(wd)
     rep.rule("W6 tiff tiled writer: the extent copied for an edge tile is `(origin + tile < extent) ? tile : extent - origin` (exactly the remaining extent)")
     remaining_extent(rep, fns, "W6-edge-tile", "W6", lambda f: "writer::" in f["name"], 2)
+    rep.rule("W6b tiff tiled writer, partial (edge) tile: the rows of the sub-view are copied to the tile buffer one after the other at a distance of the TILE WIDTH "
+             "(the cursor starts at the beginning of the buffer, advances by the tile-width parameter once per row, and is reset to the beginning afterwards): libtiff takes the "
+             "buffer as tile_length rows of tile_width pixels whatever part of it the image covers")
+    seen = set()
+    for f in fns:
+        if fmt_of(f) != "tiff" or not f["name"].endswith("writer::internal_write_tiled_data") or f.get("body") is None or len(f["params"]) != 5:
+            continue
+        sig = re.sub(r"<.*", "", f["params"][4]["type"])[:40]
+        if sig in seen:
+            continue
+        seen.add(sig)
+        g = R.canonize(f)           # $0 view, $1 tile width, $2 tile length, $3 buffer, $4 cursor
+        rep.count("obligations:W6b")
+        key = "W6b:writer::internal_write_tiled_data:row stride of a partial tile"
+        prob = []
+        loops = [lp for lp, _ in R.find(g["body"], lambda x: x.get("k") == "For")]
+        rowloops = [lp for lp in loops if R.find(lp["body"], lambda x: x.get("k") == "Call" and (x.get("callee") or {}).get("name") == "std::copy" and R.key(x["args"][-1]) == "$4")]
+        if len(rowloops) != 1:
+            prob.append("%d row loops copying to the cursor" % len(rowloops))
+        else:
+            lp = rowloops[0]
+            adv = [R.key(c) for c, _ in R.find(lp["body"], lambda x: (x.get("k") == "Call" and (x.get("callee") or {}).get("name") == "std::advance") or
+                                               (x.get("k") in ("CompoundAssign",) and R.key(x["l"]) == "$4") or (x.get("k") == "Call" and x.get("op") == "+=" and R.key(x["args"][0]) == "$4"))]
+            if adv not in (["advance($4,$1)"], ["($4 += $1)"]):
+                prob.append("the cursor moves by %s per row, expected the tile width $1" % adv)
+            resets = [R.key(a) for a, _ in R.find(g["body"], lambda x: (x.get("k") == "Assign" or (x.get("k") == "Call" and x.get("op") == "=")) and R.key(x.get("l") or x["args"][0]) == "$4")]
+            if not any(re.search(r"\$3\.(begin\(\)|front\(\)|data\(\))|\$3\[0\]", r) for r in resets):
+                prob.append("the cursor is not reset to the beginning of the tile buffer after a partial tile: %s" % resets)
+        if prob:
+            rep.violation("W6b-tile-stride", key, R.fn_where(f), {"problems": prob, "example": "tiles of 32x16 (tw != th): every row but the first of an edge tile lands at the wrong offset; 1x2 gray8 image, tile 32x16: pixel (0,1) differs"})
+        else:
+            rep.ok("W6b-tile-stride", key, "advance(cursor, tile width) once per row, reset after the tile")
+    rep.floor("obligations:W6b", 1)
 
 
 def lib_dimensions(rep):
@@ -1110,6 +1143,10 @@ def lib_wire_pixels(rep):
                 mi = re.match(r"__gnu_cxx::__normal_iterator<(boost::gil::pixel<.*>) \*, std::vector<boost::gil::pixel<", ct)
                 if mi:
                     ct = "std::vector<%s>" % mi.group(1)
+                # ... or a plain pixel pointer laid over a byte buffer (the tiff tile writer)
+                mp = re.fullmatch(r"(boost::gil::pixel<.*>) \*", ct)
+                if mp and side == "writer":
+                    ct = "std::vector<%s>" % mp.group(1)
                 if not ct.startswith("std::vector<boost::gil::pixel<"):
                     continue
                 px = wire_pixel(ct)
